@@ -1,2 +1,2 @@
 SPECIFICATION TSpec
-INVARIANTS ReplyIffValid ExactlyOne ToSender ReplyHeader NeverAnswersReply BoundedTraffic MCounted MSentinel MRawReverse
+INVARIANTS ReplyIffValid ExactlyOne ToSender ReplyHeader NeverAnswersReply HistoryIndependence BoundedTraffic MCounted MRawReverse
